@@ -114,10 +114,13 @@ structure Inv (cfg : Cfg) (g : GState) : Prop where
 
 /-! ## Which operations the preservation theorem covers -/
 
-/-- The operations for which preservation of `Inv` is proved.  For `prepareSlice` the element alignment
-    must be a power of two (it is the alignment of a Rust type). -/
+/-- The operations for which preservation of `Inv` is proved: every constructor, with three side conditions
+    that say that numeric arguments come from Rust values: `newWithSize n` takes a `usize`; the element
+    alignment of `prepareSlice` is a power of two (alignment of a Rust type); the `Result` layout of
+    `allocTryWith` has a size that is a multiple of its alignment (size of a Rust type — the model calls
+    the fast path with `Hints.sized`, which asserts exactly this). -/
 def _root_.Arena.Op.covered : Op → Bool
-  | .newWithSize _ => true
+  | .newWithSize n => decide (n < 2 ^ 64)
   | .newWithCapacity _ => true
   | .newUnallocated => true
   | .drop => true
@@ -148,12 +151,72 @@ def _root_.Arena.Op.covered : Op → Bool
   | .scopedAlignedEnter _ => true
   | .scopedAlignedExit => true
   | .withSettings _ _ _ => true
-  | .allocTryWith _ _ _ _ _ _ => true
+  | .allocTryWith L _ _ _ _ _ => L.size % L.align == 0
   | .write _ _ => true
   | .split _ _ => true
 
 def _root_.Arena.Op.Covered (op : Op) : Prop := op.covered = true
 
 instance (op : Op) : Decidable op.Covered := by unfold Op.Covered; infer_instance
+
+/-! ## Environment and coverage along a run -/
+
+/-- every operation of the history is covered -/
+def AllCovered (ops : List (Op × List BaseResp)) : Prop := ∀ x ∈ ops, x.1.Covered
+
+/-- the base allocator behaves correctly at every step of the run (the states are those of the run) -/
+def RunEnvOK (cfg : Cfg) : GState → List (Op × List BaseResp) → Prop
+  | _, [] => True
+  | g, (op, resps) :: rest =>
+    EnvOK cfg g resps ∧ ∀ g' out reqs, step cfg g op resps = .ok (g', out, reqs) → RunEnvOK cfg g' rest
+
+/-! ## The base-allocator ledger of a run (C05) -/
+
+/-- a block the base allocator granted: pointer, granted size, the size and alignment that were requested -/
+structure Grant where
+  ptr : Nat
+  granted : Nat
+  reqSize : Nat
+  align : Nat
+  deriving Repr, DecidableEq
+
+/-- the `.alloc` requests of one step paired with the responses in call order: the grants of the step -/
+def grantsOf : List BaseReq → List BaseResp → List Grant
+  | [], _ => []
+  | .alloc sz al :: rs, .granted p g :: resps => ⟨p, g, sz, al⟩ :: grantsOf rs resps
+  | .alloc _ _ :: rs, .fail :: resps => grantsOf rs resps
+  | .alloc _ _ :: rs, [] => grantsOf rs []
+  | .dealloc _ _ _ :: rs, resps => grantsOf rs resps
+
+def isDealloc : BaseReq → Bool
+  | .dealloc _ _ _ => true
+  | .alloc _ _ => false
+
+/-- the `.dealloc` requests of one step -/
+def releasesOf (reqs : List BaseReq) : List BaseReq := reqs.filter isDealloc
+
+/-- all grants / all releases of a log, in order -/
+def logGrants (log : List LogEntry) : List Grant := log.flatMap (fun e => grantsOf e.1 e.2)
+def logReleases (log : List LogEntry) : List BaseReq := log.flatMap (fun e => releasesOf e.1)
+
+/-- what the arena must still give back: one release per chunk it owns -/
+def owned (cfg : Cfg) (s : State) : List BaseReq := s.chunks.map (deallocReq cfg)
+
+/-- chunk `c` was built in the block of grant `gr`: same pointer, header alignment requested, and the
+    size in use (which is the size that will be released) lies between the requested and the granted size -/
+def ChunkOfGrant (cfg : Cfg) (c : Chunk) (gr : Grant) : Prop :=
+  c.base = gr.ptr ∧ gr.align = cfg.hdr.align ∧ gr.reqSize ≤ c.size ∧ c.size ≤ gr.granted
+
+/-- the two lists correspond element by element -/
+inductive Matched {α β : Type} (R : α → β → Prop) : List α → List β → Prop
+  | nil : Matched R [] []
+  | cons {a b as bs} : R a b → Matched R as bs → Matched R (a :: as) (b :: bs)
+
+/-- the ledger is balanced: the chunks ever created (`acq`) correspond one to one, in order, to the grants,
+    and the releases made so far together with the releases still due are exactly one release per chunk
+    ever created -/
+def Balanced (cfg : Cfg) (grants : List Grant) (releases : List BaseReq) (s : State) : Prop :=
+  ∃ acq : List Chunk, Matched (ChunkOfGrant cfg) acq grants ∧
+    (releases ++ owned cfg s).Perm (acq.map (deallocReq cfg))
 
 end Arena.Hist
